@@ -147,6 +147,10 @@ type decompressor struct {
 	blk Block
 
 	err error
+
+	// gen is the generation of the read-ahead instruction
+	// the decompressor was last used for.
+	gen int
 }
 
 // Read provides the Read method for the decompressor's gzip.Reader.
@@ -225,6 +229,8 @@ func (d *decompressor) nextBlockAt(off int64, rs io.ReadSeeker) *decompressor {
 	}
 
 	d.lazyBlock()
+	// Whatever happens from here on, the Block is for the member at off.
+	d.blk.setBase(off)
 
 	d.acquireHead()
 	defer d.releaseHead()
@@ -248,7 +254,6 @@ func (d *decompressor) nextBlockAt(off int64, rs io.ReadSeeker) *decompressor {
 		}
 	}
 
-	d.blk.setBase(d.cr.offset())
 	d.err = d.readMember()
 	if d.err != nil {
 		d.wg.Done()
@@ -353,8 +358,14 @@ type Reader struct {
 	// Concurrent work fields.
 	waiting chan *decompressor
 	working chan *decompressor
-	control chan int64
+	control chan readAhead
 	done    chan struct{}
+
+	// gen is the generation of the last instruction
+	// sent on control. A decompressor received from
+	// working with an older generation holds a stale
+	// result.
+	gen int
 
 	current Block
 
@@ -365,6 +376,16 @@ type Reader struct {
 	cache Cache
 
 	err error
+}
+
+// readAhead is an instruction to the read-ahead goroutine of a Reader.
+type readAhead struct {
+	// next is the file offset of the member to go
+	// on with, or negative if there is none.
+	next int64
+
+	// gen is the generation of the instruction.
+	gen int
 }
 
 // NewReader returns a new BGZF reader.
@@ -388,7 +409,7 @@ func NewReader(r io.Reader, rd int) (*Reader, error) {
 	if rd > 1 {
 		bg.waiting = make(chan *decompressor, rd)
 		bg.working = make(chan *decompressor, rd)
-		bg.control = make(chan int64, 1)
+		bg.control = make(chan readAhead, 1)
 		bg.done = make(chan struct{})
 		for ; rd > 1; rd-- {
 			bg.waiting <- &decompressor{owner: bg}
@@ -409,7 +430,7 @@ func NewReader(r io.Reader, rd int) (*Reader, error) {
 	if bg.control != nil {
 		bg.waiting <- bg.dec
 		bg.dec = nil
-		next := blk.NextBase()
+		ra := readAhead{next: blk.NextBase()}
 		go func() {
 			defer func() {
 				bg.mu.Lock()
@@ -418,23 +439,22 @@ func NewReader(r io.Reader, rd int) (*Reader, error) {
 				close(bg.done)
 			}()
 			for dec := range bg.waiting {
-				var open bool
-				if next < 0 {
-					next, open = <-bg.control
-					if !open {
-						return
-					}
-				} else {
-					select {
-					case next, open = <-bg.control:
-						if !open {
-							return
-						}
-					default:
-					}
+				open := true
+				select {
+				case ra, open = <-bg.control:
+				default:
 				}
-				dec.nextBlockAt(next, nil)
-				next = dec.blk.NextBase()
+				for open && ra.next < 0 {
+					// The end of the stream or a failure:
+					// wait to be told where to go on.
+					ra, open = <-bg.control
+				}
+				if !open {
+					return
+				}
+				dec.gen = ra.gen
+				dec.nextBlockAt(ra.next, nil)
+				ra.next = dec.blk.NextBase()
 				bg.working <- dec
 			}
 		}()
@@ -459,6 +479,9 @@ func (bg *Reader) Seek(off Offset) error {
 
 	if off.File != bg.current.Base() || !bg.current.hasData() {
 		ok := bg.cacheSwap(off.File)
+		if ok && bg.dec == nil {
+			bg.readAheadFrom(bg.current.NextBase())
+		}
 		if !ok {
 			var dec *decompressor
 			if bg.dec != nil {
@@ -473,7 +496,7 @@ func (bg *Reader) Seek(off Offset) error {
 							// This decompressor had the block we
 							// wanted.
 							bg.current = blk
-							bg.control <- bg.current.NextBase()
+							bg.readAheadFrom(bg.current.NextBase())
 							bg.waiting <- dec
 							dec = nil
 						} else {
@@ -492,11 +515,7 @@ func (bg *Reader) Seek(off Offset) error {
 					nextBlockAt(off.File, rs).
 					wait()
 				if bg.dec == nil {
-					select {
-					case <-bg.control:
-					default:
-					}
-					bg.control <- bg.current.NextBase()
+					bg.readAheadFrom(bg.current.NextBase())
 					bg.waiting <- dec
 				}
 				bg.Header = bg.current.header()
@@ -513,6 +532,19 @@ func (bg *Reader) Seek(off Offset) error {
 	}
 
 	return bg.err
+}
+
+// readAheadFrom tells the read-ahead goroutine to go on with the member
+// at next instead of what it is doing, or to wait if next is negative.
+// What it has read, or is reading, for earlier instructions is stale from
+// now on.
+func (bg *Reader) readAheadFrom(next int64) {
+	select {
+	case <-bg.control:
+	default:
+	}
+	bg.gen++
+	bg.control <- readAhead{next: next, gen: bg.gen}
 }
 
 // LastChunk returns the region of the BGZF file read by the last
@@ -634,22 +666,32 @@ func (bg *Reader) nextBlock() error {
 		bg.dec.using(bg.current).nextBlockAt(base, nil)
 		bg.current, err = bg.dec.wait()
 	} else {
-		var ok bool
-		for i := 0; i < cap(bg.working); i++ {
+		for {
 			dec := <-bg.working
 			bg.current, err = dec.wait()
+			stale := dec.gen != bg.gen
+			if bg.current.Base() != base || (err != nil && stale) {
+				if err == nil {
+					bg.keep(bg.current)
+					bg.current = nil
+				}
+				if stale {
+					bg.waiting <- dec
+					continue
+				}
+				// The read-ahead is not where the Reader is: it
+				// skipped a block that has since left the cache,
+				// it read one that the Reader found in the cache,
+				// or it failed elsewhere and is waiting. Do what
+				// Seek does.
+				bg.current, err = dec.
+					using(bg.current).
+					nextBlockAt(base, nil).
+					wait()
+				bg.readAheadFrom(bg.current.NextBase())
+			}
 			bg.waiting <- dec
-			if bg.current.Base() == base {
-				ok = true
-				break
-			}
-			if err == nil {
-				bg.keep(bg.current)
-				bg.current = nil
-			}
-		}
-		if !ok {
-			panic("bgzf: unexpected block")
+			break
 		}
 	}
 	if err != nil {
